@@ -232,7 +232,7 @@ func c16Parsers() []*c16Parser {
 			tokens: []string{",", "\n", "\"", "1", "a", " ", "\r", "é", "-", "=", "QQ==", csv1, csv2, csv3},
 			run:    func(in []byte, rd *c16Reader) c16Out { return c16Drain(vegeta.NewCSVDecoder(rd), len(in)) }},
 		{name: "json", group: "results", stream: true, memBase: base,
-			tokens: []string{"{", "}", "\"", ":", ",", "[", "]", "1", "a", "\n", "\\", "null", "\"code\":200", "\"timestamp\":\"2024-03-01T12:00:00Z\"", "\"headers\":{\"A\":[\"b\"]}", "é"},
+			tokens: []string{"{", "}", "\"", ":", ",", "[", "]", "1", "a", "\n", "\\", "null", "\"code\":200", "\"timestamp\":\"2024-03-01T12:00:00Z\"", "\"headers\":{\"A\":[\"b\"]}", "é", "\"headers\":{\"A\":[", "\"body\":"},
 			run:    func(in []byte, rd *c16Reader) c16Out { return c16Drain(vegeta.NewJSONDecoder(rd), len(in)) }},
 		{name: "DecoderFor", group: "results", stream: true, memBase: gobBase,
 			tokens: []string{"{", "}", "\"", ",", "\n", "1", "\x00", "\xff", string(gobValue), string(gobTypes), csv1, csv2, csv3, "\"code\":200"},
@@ -249,7 +249,7 @@ func c16Parsers() []*c16Parser {
 				return c16Targets(vegeta.NewHTTPTargeter(rd, nil, nil))
 			}},
 		{name: "json-targets", group: "targets", stream: true, memBase: base,
-			tokens: []string{"{", "}", "\"", ":", ",", "[", "]", "\n", "\"method\":\"GET\"", "\"url\":\"http://h/\"", "\"body\":\"QQ==\"", "\"header\":{\"A\":[\"b\"]}", "null", "a", " "},
+			tokens: []string{"{", "}", "\"", ":", ",", "[", "]", "\n", "\"method\":\"GET\"", "\"url\":\"http://h/\"", "\"body\":\"QQ==\"", "\"header\":{\"A\":[\"b\"]}", "null", "a", " ", "\"header\":{\"A\":[", "\"body\":"}, // incl. openers of the nested structures, so that short strings reach the inner loops
 			run: func(in []byte, rd *c16Reader) c16Out {
 				return c16Targets(vegeta.NewJSONTargeter(rd, nil, nil))
 			}},
@@ -728,16 +728,49 @@ func TestC16(t *testing.T) {
 			}
 			classMu.Unlock()
 		}()
-		select {
-		case <-done:
-		case <-time.After(deadline):
-			in := cur.Load()
-			desc := "?"
-			if in != nil {
-				desc = ev.Trunc(fmt.Sprintf("%q", *in), 300)
+		// A call that loops without reading cannot be seen by the EOF-spin reader. The shard is watched:
+		// when one and the same input has been in progress for stallAfter, that single call is repeated
+		// on its own; only if it again does not return within confirmAfter is it reported as a hang
+		// (these are tens of seconds for inputs of a few hundred bytes whose parse takes microseconds).
+		const stallAfter, confirmAfter = 20 * time.Second, 30 * time.Second
+		start := time.Now()
+		var lastIn *[]byte
+		lastChange := time.Now()
+		tick := time.NewTicker(2 * time.Second)
+		defer tick.Stop()
+		for {
+			select {
+			case <-done:
+				return
+			case <-tick.C:
 			}
-			inconclusive.Store(true)
-			R.Cap(fmt.Sprintf("watchdog: parser %s, family %s did not finish within %s (last input %s): INCONCLUSIVE, not a violation", sh.p.name, sh.family, deadline, desc))
+			in := cur.Load()
+			if in != lastIn {
+				lastIn, lastChange = in, time.Now()
+			}
+			if in != nil && time.Since(lastChange) > stallAfter {
+				confirmed := make(chan struct{})
+				input := append([]byte(nil), (*in)...)
+				go func() { c16Call(sh.p, input, 0); close(confirmed) }()
+				select {
+				case <-confirmed:
+					// the call returns on its own: the shard was merely slow, keep waiting
+					lastChange = time.Now()
+				case <-time.After(confirmAfter):
+					R.Violation(sh.p.name+":hang:call-does-not-return", map[string]any{"parser": sh.p.name, "family": sh.family,
+						"input": fmt.Sprintf("%q", input), "what": fmt.Sprintf("the call did not return within %s in the shard and again not within %s when repeated on its own", stallAfter, confirmAfter)})
+					return
+				}
+			}
+			if time.Since(start) > deadline {
+				desc := "?"
+				if in != nil {
+					desc = ev.Trunc(fmt.Sprintf("%q", *in), 300)
+				}
+				inconclusive.Store(true)
+				R.Cap(fmt.Sprintf("watchdog: parser %s, family %s did not finish within %s (last input %s): INCONCLUSIVE, not a violation", sh.p.name, sh.family, deadline, desc))
+				return
+			}
 		}
 	}
 
